@@ -31,14 +31,14 @@ CHECK = {
                   "materials": 4, "scint_materials": 5, "directions": 18, "variants": 4,
                   "beta_lattice_per_material": 7,
                   "photons_per_script": "2 (Cerenkov) / 3 (scintillation)"},
-        "thorough": {"alphabet": "alphabet_u7", "script_len_generators": 6, "script_len_offload": 3,
+        "thorough": {"alphabet": "alphabet_u7 (positions 0-4 of the generator scripts; alphabet_u5 at position 5)", "script_len_generators": 6, "script_len_offload": 3,
                      "materials": 5, "scint_materials": 6, "directions": 24, "variants": 4,
-                     "beta_lattice_per_material": 9,
+                     "beta_lattice_per_material": 8,
                      "photons_per_script": "2 (Cerenkov) / 3 (scintillation)"},
     },
     "parts": [
         {"name": "optical", "harness": "c20_optical_gen", "flavour": "rel",
-         "shards": {"quick": 16, "thorough": 16}, "deadline": {"quick": 120, "thorough": 1100}},
+         "shards": {"quick": 16, "thorough": 16}, "deadline": {"quick": 240, "thorough": 1150}},
     ],
 }
 
